@@ -418,6 +418,12 @@ def _fold_members(ctx: Ctx, idx):
     shapes = {
         "string": (T("base", name="string"), "string"),
         "struct": (T("reference", name="Range"), "Range"),
+        # the kinds generate_property gives a declaration of their own
+        "stringLiteral": (T("stringLiteral", value="create"), "string"),
+        "uinteger": (T("base", name="uinteger"), "long"),
+        "integer": (T("base", name="integer"), "int"),
+        "boolean": (T("base", name="boolean"), "bool"),
+        "uinteger|null": (T("or", items=[T("base", name="uinteger"), null]), "long"),
         "array": (T("array", element=T("base", name="string")), "ImmutableArray<string>"),
         "map": (T("map", key=T("base", name="string"), value=T("base", name="string")), "ImmutableDictionary<string, string>"),
         "string|null": (T("or", items=[T("base", name="string"), null]), "string"),
@@ -468,7 +474,7 @@ def _fold_members(ctx: Ctx, idx):
             ctx.check(has_default == (optional or null_adm), "ctor-optional-has-default", case,
                       f"constructor parameter for an {'optional' if optional or null_adm else 'required'} property: {ctor}",
                       P_CLASSES, gc.lineno)
-    ctx.floor("generate_property cases folded", n, 12)
+    ctx.floor("generate_property cases folded", n, 20)
 
 
 # the C# type of a member: get_type_name folded (E5) on one synthetic type per kind and compared with the mapping
